@@ -55,7 +55,8 @@ def run(ctx):
         f = cg.fns[name]
         fn = M.Fn(f, name)
         if name.startswith("blots_core::"):
-            hf = core.hir.get(name)
+            # a closure inside an evaluator function is part of that function
+            hf = core.hir.get(name) or core.hir.get(f.get("parent") or "")
             is_eval = hf is not None and any("ast::Spanned<blots_core::ast::Expr>" in t for t in hf.get("inputs", [])) and any("environment::Environment" in t for t in hf.get("inputs", [])) and "values::Value" in hf.get("output", "")
             handles_assign = hf is not None and any(H.kind(n) in ("Struct",) and (n["res"].get("def") or "").endswith("ast::Expr::Assignment") for n in H.walk(hf["body"]) if isinstance(n.get("res"), dict))
             ok1 = bool(is_eval and handles_assign)
